@@ -265,11 +265,13 @@ ItemVals(it) ==
 ExportBasic(buf, out) ==
   LET st == ObsStarts(out) IN
   UNION {LET it == out[i] IN
-         IF it.k \notin {"v5", "v7", "v9"} \/ it.exp.st = "off" THEN {}
+         IF it.k = "err" \/ it.exp.st = "off" THEN {}
          ELSE IF it.k = "v9" /\ LossyTags(ItemVals(it)) # {} THEN {}
+         ELSE IF it.k = "ipfix" /\ \E s \in 1..Len(it.sets) : it.sets[s].k \in {"data", "odata"} THEN {}
+         ELSE IF it.k = "ipfix" /\ SumSeq([s \in 1..Len(it.sets) |-> Max2(it.sets[s].len, 4)]) + 16 # ObsWire(it) THEN {}   \* sets were omitted
          ELSE IF st[i] + ObsWire(it) > Len(buf) THEN {}
          ELSE IF it.exp.st = "ok" /\ it.exp.bytes = SubSeq(buf, st[i] + 1, st[i] + ObsWire(it)) THEN {}
-         ELSE {<<IF it.k = "v9" THEN "C09" ELSE "C08", it.k, "export", "differs-from-consumed-bytes">>}
+         ELSE {<<IF it.k = "v9" THEN "C09" ELSE IF it.k = "ipfix" THEN "C10" ELSE "C08", it.k, "export", "differs-from-consumed-bytes">>}
          : i \in 1..NumPackets(out)}
 
 PostFindings(km, buf, out, eout) ==
@@ -395,7 +397,11 @@ Judge(buf, allow, preO, last, out, postO) ==
         \cup (IF matched THEN ContentFindings(km, out, run.out) \cup PostFindings(km, buf, out, run.out)
              ELSE (IF acct = "" THEN ExportBasic(buf, out) ELSE {})
                   \cup (IF ri # 0 THEN {} ELSE Unexplained(km, out, ideal, allow)))
-        \cup CacheFindings(buf, pre, post, run, matched),
+        \cup CacheFindings(buf, pre, post, run, matched)
+        \* unexplained structure on a conformant buffer: the caches must still be the reference's
+        \cup (IF ~matched /\ ri = 0 /\ conf
+              THEN UNION {IF GovEq(pr, post[pr], ideal.tm[pr]) THEN {} ELSE {<<"C06", "cache", "mismatch", pr>>} : pr \in Protos}
+              ELSE {}),
       matched |-> matched, conf |-> conf, dev |-> IF matched \/ ri # 0 THEN run.used ELSE {"?"},
       last |-> [v9 |-> run.tm.v9.last, ipfix |-> run.tm.ipfix.last],
       run |-> run, km |-> km]
